@@ -52,6 +52,9 @@ type c12Inst struct {
 	pwEpoch     int
 	sessions    []*c12Sess
 	maxSessions int
+	// verified: the current password hash has been verified successfully (the process-wide cache of verified
+	// passwords holds an entry for it) - hidden state of the code under test that decides later answers
+	verified bool
 }
 
 var (
@@ -150,6 +153,7 @@ func (in *c12Inst) Apply(e c12Event) map[string]string {
 		in.exists, in.disabled, in.password = true, false, e.P
 		in.incarnation++
 		in.pwEpoch++
+		in.verified = false
 	case "delete":
 		u, err := in.a.GetUser(c12User)
 		if err == nil && u != nil {
@@ -164,6 +168,7 @@ func (in *c12Inst) Apply(e c12Event) map[string]string {
 		harness(in.save(func(u User) error { return u.SetPassword(c12PW[e.P]) }))
 		in.password = e.P
 		in.pwEpoch++
+		in.verified = false
 	case "session", "onetime":
 		u, err := in.a.GetUser(c12User)
 		if err != nil || u == nil {
@@ -183,6 +188,9 @@ func (in *c12Inst) Apply(e c12Event) map[string]string {
 	case "authpw":
 		u, err := in.a.AuthenticateUser(c12User, c12PW[e.P])
 		got := err == nil && u != nil
+		if got && c12PW[e.P] != "" {
+			in.verified = true
+		}
 		want := in.exists && !in.disabled && c12PW[e.P] != "" && e.P == in.password
 		state := fmt.Sprintf("exists=%v disabled=%v", in.exists, in.disabled)
 		if in.exists && !in.disabled && in.password == "e" && c12PW[e.P] == "" {
@@ -266,7 +274,7 @@ func (in *c12Inst) Apply(e c12Event) map[string]string {
 
 func (in *c12Inst) Canon() string {
 	var b strings.Builder
-	fmt.Fprintf(&b, "e%v d%v p%s|", in.exists, in.disabled, in.password)
+	fmt.Fprintf(&b, "e%v d%v p%s v%v|", in.exists, in.disabled, in.password, in.verified)
 	for _, s := range in.sessions {
 		fmt.Fprintf(&b, "[%v %v %v %v]", s.incarnation == in.incarnation, s.pwEpoch == in.pwEpoch, s.oneTime, s.gone)
 	}
@@ -419,7 +427,7 @@ func c12RunFault(t testing.TB, r *vreport.Report, c c12FaultCase, opsOut *int) {
 func TestVerifC12(t *testing.T) {
 	r := vreport.Begin("C12")
 	defer r.Finish(t)
-	r.Rule("(a) BFS over every history of create(p|q) / delete / disable / enable / set password / create session / create one-time session / delete-or-expire session / authenticate with password p, q, empty / with each cookie / with each one-time id, on the real Authenticator, up to depth D and at most S sessions; canonical state = (user exists, disabled, password, per session: same incarnation, same password epoch, one-time, gone); (b) every schedule (preemption bound B, points at storage operations) of 2-3 concurrent presentations of one one-time session via the cookie path, the one-time path and a mix; (c) one storage fault (error, CAS mismatch, timeout not applied, timeout applied) at each storage operation of a presentation of a one-time session, followed by two fault-free presentations: at most one of the three may authenticate")
+	r.Rule("(a) BFS over every history of create(p|q) / delete / disable / enable / set password / create session / create one-time session / delete-or-expire session / authenticate with password p, q, empty / with each cookie / with each one-time id, on the real Authenticator, up to depth D and at most S sessions; canonical state = (user exists, disabled, password, whether the current password has been verified (cached), per session: same incarnation, same password epoch, one-time, gone); (b) every schedule (preemption bound B, points at storage operations) of 2-3 concurrent presentations of one one-time session via the cookie path, the one-time path and a mix; (c) one storage fault (error, CAS mismatch, timeout not applied, timeout applied) at each storage operation of a presentation of a one-time session, followed by two fault-free presentations: at most one of the three may authenticate")
 	r.Assume("session expiry is the bucket deleting the session document (same observable event as logout); arbitrary password strings are represented by two distinct passwords (chosen to collide under a 32-bit FNV-1a digest) and the empty password, which can also be set; bcrypt cost is the minimum")
 	defer func() {
 		if c12TB != nil {
